@@ -33,6 +33,7 @@ P = {
   technique="def-use dataflow on the accumulator + decision-table extraction over process_node"),
 "C03": dict(
   decided={
+    "C03.k": "the visited set of the rule-kind fixpoint lives for one pass: it is re-created inside the change-driven loop before the classes are visited",
     "C03.j": "the static walkers of rule kind / inheritance inference skip syntactic predicates (And/Not leave no result at run time): every use of a node's .root in them lies where the node is known not to be a predicate",
     "C03.a": "every comparison with a RULE_*/MULT_* constant has a rule-kind / multiplicity operand (kind discipline)",
     "C03.b": "inside the change-driven fixpoint of _determine_rule_types every derived fact is recomputed each pass",
@@ -48,6 +49,7 @@ P = {
   technique="kind-discipline lint over all RULE_*/MULT_* comparisons + control-dependence inside the fixpoint loop + table agreement"),
 "C04": dict(
   decided={
+    "C04.f": "no base-type pattern has exactly one capturing group unless it spans the whole match (use_regexp_group would convert only that group)",
     "C04.e": "the table of built-in conversions is written only in __init__: no other method mutates it (directly or through an alias) or binds another attribute to the table itself instead of a copy",
     "C04.d": "numeric regexes accept their writer: L(str(int)) within L(INT), L(repr(finite float)) within L(FLOAT) and L(STRICTFLOAT) (core languages, by automaton product); STRICTFLOAT accepts no digit-only word; both float patterns end in the same context assertions",
     "C04.a": "STRING: for each delimiter the regex's only escape alternative is backslash+delimiter and the converter strips one char per side and unescapes exactly that",
